@@ -127,7 +127,7 @@ class ImageFormation(HoloPyObject):
                 medium_index=schema.medium_index,
                 illum_polarization=schema.illum_polarization)
             )
-        phase = np.exp(-1j * wavevector * scatterer.center[2])
+        phase = np.exp(-1j * wavevector * float(scatterer.center[2]))
         scattered_field *= phase
         return scattered_field
 
@@ -216,10 +216,16 @@ class ImageFormation(HoloPyObject):
         else:
             original_coordinate_system = 'cartesian'
             f = flat(detector)  # 1.6 ms
+            # (in double precision, whatever type the coordinates and the
+            # centre are stored in: unsigned pixel indices would wrap
+            # around, narrow floats lose digits)
+            x, y, z = (np.asarray(f[dim].values, dtype=float)
+                       for dim in 'xyz')
+            x0, y0, z0 = (float(c) for c in origin)
             original_coordinate_values = [
-                wavevec * (f.x.values - origin[0]),
-                wavevec * (f.y.values - origin[1]),
-                wavevec * (origin[2] - f.z.values),
+                wavevec * (x - x0),
+                wavevec * (y - y0),
+                wavevec * (z0 - z),
                 # z is defined opposite light propagation, so we invert
                 ]
         method = find_transformation_function(
